@@ -75,23 +75,22 @@ def sortedAttributes (k : RecKind) (attrs : List (QName × Value)) : List (QName
   let rest := attrs.filter (fun p => !(order.contains p.1.uri))
   firsts ++ stableSort rest
 
-/-- `_derive_record_label`: element label and the attribute list with the consumed prov:type removed -/
+/-- the pair `_derive_record_label` looks for: a prov:type whose value is a qualified name of a PROV subtype of this kind -/
+def isSubtypePair (k : RecKind) (p : QName × Value) : Bool :=
+  p.1.uri == provUri ++ "type" &&
+  (match p.2 with
+   | .qn q => subtypeTable.any (fun s => q.uri == provUri ++ s.1 && s.2.2 == k)
+   | _ => false)
+
+/-- `_derive_record_label`: element label and the attribute list with the consumed prov:type pair (that very pair, by
+    position) removed -/
 def deriveLabel (k : RecKind) (attrs : List (QName × Value)) : String × List (QName × Value) :=
-  let cand := attrs.find? (fun p =>
-    p.1.uri == provUri ++ "type" &&
-    (match p.2 with
-     | .qn q => subtypeTable.any (fun s => q.uri == provUri ++ s.1 && s.2.2 == k)
-     | _ => false))
-  match cand with
-  | some (a, .qn q) =>
+  match attrs.find? (isSubtypePair k) with
+  | some (_, .qn q) =>
     let lbl := match subtypeTable.find? (fun s => q.uri == provUri ++ s.1) with
       | some s => s.2.1
       | none => k.provN
-    -- attributes.remove((key, value)): removes the first pair equal to it (name and value compared with ==)
-    let rec removeFirst : List (QName × Value) → List (QName × Value)
-      | [] => []
-      | p :: ps => if p.1.same a && p.2.pyEq (.qn q) then ps else p :: removeFirst ps
-    (lbl, removeFirst attrs)
+    (lbl, attrs.eraseP (isSubtypePair k))
   | _ => (k.provN, attrs)
 
 structure XChild where
